@@ -570,7 +570,12 @@ func (e *Engine) runRegion(fc *fnCtx, start *ssa.BasicBlock, region map[*ssa.Bas
 	return back, exits
 }
 
+func iterName(li *loopInfo) string { return fmt.Sprintf("$iter%d", li.ordinal) }
+
 func (e *Engine) handleLoop(fc *fnCtx, li *loopInfo, sIn *State) map[*ssa.BasicBlock][]*State {
+	// ghost iteration counter ($n in invariants): 0 on entry, +1 on every back edge
+	sIn = sIn.clone()
+	e.setHeapIn(sIn, iterName(li), "Int", "0")
 	// 1. dry run from a fully havoc'd state to find what the body modifies
 	e.dry++
 	dry := &State{Cells: map[ssa.Value]Val{}, Heaps: map[string]string{}, Epoch: e.newEpoch()}
@@ -594,7 +599,7 @@ func (e *Engine) handleLoop(fc *fnCtx, li *loopInfo, sIn *State) map[*ssa.BasicB
 	fc.returns = fc.returns[:savedReturns]
 	e.dry--
 	modCells := map[ssa.Value]bool{}
-	modHeaps := map[string]bool{}
+	modHeaps := map[string]bool{iterName(li): true}
 	havocAll := false
 	for _, bs := range dryBack {
 		for k, sym := range syms {
@@ -656,6 +661,9 @@ func (e *Engine) handleLoop(fc *fnCtx, li *loopInfo, sIn *State) map[*ssa.BasicB
 			if n == allocHeap {
 				e.sc.assert("(>= " + fresh + " " + e.heapIn(sIn, n, srt) + ")")
 			}
+			if n == iterName(li) {
+				e.sc.assert("(>= " + fresh + " 0)")
+			}
 		}
 	}
 	for _, inv := range invs {
@@ -665,7 +673,7 @@ func (e *Engine) handleLoop(fc *fnCtx, li *loopInfo, sIn *State) map[*ssa.BasicB
 	var frameHeaps []string
 	if fc.contract != nil && !fc.contract.ModAll && len(e.inlineStack) == 0 && !havocAll {
 		for _, n := range sortedKeys(modHeaps) {
-			if n == allocHeap {
+			if n == allocHeap || strings.HasPrefix(n, "$iter") {
 				continue
 			}
 			f, ok := e.frameFormula(fc, n, head)
@@ -688,6 +696,9 @@ func (e *Engine) handleLoop(fc *fnCtx, li *loopInfo, sIn *State) map[*ssa.BasicB
 	// 4. real run
 	backs, exits := e.runRegion(fc, li.header, li.body, head, li)
 	for _, bs := range backs {
+		if !havocAll {
+			e.setHeapIn(bs, iterName(li), "Int", "(+ "+e.heapIn(head, iterName(li), "Int")+" 1)")
+		}
 		for i, inv := range invs {
 			f := e.evalInv(fc, li, bs, inv)
 			e.addObl(fc.fn, "inv.preserved", invLabel(li, i, inv), li.header.Instrs[0].Pos(), bs.Reach, f)
